@@ -35,6 +35,7 @@ VALID_KINDS = {
     "pub": ["IL=1", "IL=n-1", "IL=kpar", "IR=00", "IR=ff"],
     "bip85": ["S=1", "S=n-1", "S=lz"],
 }
+MASTER_VIAS = ["master_key", "master_key", "from_bip39_seed_hex", "from_bip39_seed_bytes", "paper_from_seed_hex"]
 SCALAR_CLASSES = ["one", "two", "n-1", "n-2", "pow2", "lz", "random"]
 
 
@@ -172,7 +173,7 @@ def _op_for_cell(rng, cell, out):
     aux = gen_scalar(rng, "lz")
     if site == "master":
         return {"op": "master", "seed_hex": rng.randbytes(rng.choice([16, 32, 64])).hex(), "testnet": rng.random() < 0.5,
-                "out": out, "faults": {"0": [kind, aux]}}
+                "via": rng.choice(MASTER_VIAS), "out": out, "faults": {"0": [kind, aux]}}
     if site.startswith("bip85"):
         op = {"op": site.replace("-", "_"), "h": "r", "i": rng.choice([0, 1, 2, HARD - 1])}
         op["faults"] = {"3": [kind, aux]}
@@ -260,7 +261,10 @@ def gen_plan(prop, seed, tier, idx):
             op = {"op": "ckd", "h": h, "i": _rand_index(rng), "out": out}
         elif x < 0.55:
             op = {"op": rng.choice(["derive_path", "by_path"]), "h": h,
-                  "il": [_rand_index(rng) for _ in range(rng.randint(1, 5))], "out": out}
+                  "il": [_rand_index(rng) for _ in range(rng.randint(1, 5) if rng.random() < 0.85 else rng.randint(6, 9))],
+                  "out": out}
+            if len(op["il"]) > 5:
+                op["op"] = "derive_path"       # by_path strings are honoured for five levels only (C17)
         elif x < 0.65:
             op = {"op": "pub_ckd", "h": h, "i": _rand_index(rng, hardened=False), "out": out}
         elif x < 0.75:
@@ -270,7 +274,7 @@ def gen_plan(prop, seed, tier, idx):
             op = {"op": rng.choice(["bip85_wif", "bip85_xprv"]), "h": h, "i": rng.choice([0, 1, 7, HARD - 1])}
         else:
             op = {"op": "master", "seed_hex": rng.randbytes(rng.choice([16, 32, 64])).hex(),
-                  "testnet": rng.random() < 0.5, "out": out}
+                  "testnet": rng.random() < 0.5, "via": rng.choice(MASTER_VIAS), "out": out}
         op["faults"] = {}
         op = fit(op)
         if config == "planted" and cell is None and rng.random() < 0.5:
@@ -474,7 +478,17 @@ def _run_child(plan):
         exc = None
         try:
             if kind == "master":
-                result = PrvKeyNode.master_key(bip39_seed=bytes.fromhex(op["seed_hex"]), testnet=op["testnet"])
+                via = op.get("via", "master_key")
+                if via == "master_key":
+                    result = PrvKeyNode.master_key(bip39_seed=bytes.fromhex(op["seed_hex"]), testnet=op["testnet"])
+                elif via == "from_bip39_seed_hex":
+                    result = BaseWallet.from_bip39_seed_hex(bip39_seed=op["seed_hex"], testnet=op["testnet"]).master
+                elif via == "from_bip39_seed_bytes":
+                    result = BaseWallet.from_bip39_seed_bytes(bip39_seed=bytes.fromhex(op["seed_hex"]),
+                                                              testnet=op["testnet"]).master
+                else:
+                    from btc_hd_wallet.paper_wallet import PaperWallet
+                    result = PaperWallet.from_bip39_seed_hex(bip39_seed=op["seed_hex"], testnet=op["testnet"]).master
             elif kind == "ckd":
                 result = sut_par.ckd(index=op["i"])
             elif kind == "derive_path":
